@@ -18,8 +18,13 @@ THEOREMS = [_NS + t for t in (
     "valOK_tok", "Arg11.rep", "arg11_array", "SVal.proved.arg11", "cells_proved",
     # printing of the scanned scalar values
     "printsVal_tok", "printArgVals_lay",
+    # a leading range `b ... c` of decimal 'i' integers followed by proved values (checker, scanner, denotation)
+    "range_first_partial", "reads_range_first", "cells_range_first", "range_first_lay", "scanArgVal_range0",
+    "skipNext_range0", "deltaUnity11",
     # known finding C11-K1: the full statement fails on "077"; the proved part lies outside the trigger
     "scan_denotes_counterexample", "proved_not_K1",
+    # known finding C11-K2: the full statement fails on "42%c"; the proved part lies outside the trigger
+    "checker_scanner_agree_counterexample", "proved_not_K2", "k2_witness", "k2_count",
     # non-vacuity: sentences with one value of every proved construct under a messy layout
     "exPlain", "exProved")]
 HARNESS = {"src": ["scan.cpp"]}
@@ -28,19 +33,33 @@ RULE = ("each case: one text generated constructively from the grammar of doc/Gu
         "point/exponent/suffix/hex notation with and without an exact value in parentheses, characters raw or escaped, "
         "strings with escapes and 1..3 concatenated parts, identifiers and quoted symbols, true/false/nil/inf, "
         "now/immediately, colours, MIDI, blobs (BLOB [n 0x.. …]), NxA repetitions of scalars and arrays, 'a b ... c' ranges of c/i/h/f/d, arrays "
-        "with nested arrays, repetitions, ranges and open-ended ranges), rendered with 0..3 white-space / line-break / "
-        "'%' comment insertions at every token boundary (comments between top-level values only); 40 % of the cases carry "
+        "with nested arrays (depth <= 4), repetitions, ranges and open-ended ranges; runs of 5..10 explicitly written values "
+        "the printer compresses: arithmetic progressions of c/i/h with steps incl. 0, negative steps and first-to-last "
+        "distances beyond the width of the type, and one scalar written n times, at top level and in arrays; quoted "
+        "symbols whose content is a reserved word or identifier-shaped), rendered with 0..3 white-space / line-break / "
+        "'%' comment insertions at every token boundary (comments between top-level values only, also directly behind a "
+        "value without white space in between); 40 % of the cases carry "
         "a second rendering of the same choices; a second stream (1500 / 30000 cases) builds sentences of the Lean specification "
         "(Pretty/C11Spec.lean: every construct incl. ranges of c/i/h/f/d, open-ended arrays, floats with exact part), renders "
         "them in Python and sends the sentence along (sent=…): the driver decodes it and reports any difference between "
         "what the specification says the sentence denotes and what the model scans from the text and from the "
-        "specification's own rendering; a case is non-trivial when the text has at least two values or one "
+        "specification's own renderings (one without insertions, one with comments directly behind the values); the "
+        "timestamp spellings with a date (doc/Guide.adoc) are not part of C11's sentences (C10 prints and rescans them); "
+        "a case is non-trivial when the text has at least two values or one "
         "compound value; distinct = distinct op line")
 ASSUMPTIONS = [
-    "the fix patches fixes/C11-01 … C11-06 are applied to the tree (on top of fixes/C10-*.patch): leading white space / "
+    "the fix patches fixes/C11-01 … C11-07 are applied to the tree (on top of fixes/C10-*.patch): leading white space / "
     "comments in rtosc_scan_arg_vals, numeric test for open-ended ranges in the scanner, no scan of a non-numeric left "
     "neighbour in the checker, no left neighbour taken from inside a preceding array, nearest step count for float ranges, "
-    "args_before in arrays counts argument values",
+    "args_before in arrays counts argument values, the checker rejects a range of a repetition (3x1 ... 5)",
+    "what is compared between model and implementation is what observe_at names: the count, the number of cells "
+    "written, the bytes consumed, the cells (booleans with their payload val.T: T1 / F0), and the same for the text "
+    "printed from the cells (there only 'consumed entirely'); the printed text itself is not compared; on texts "
+    "outside the grammar (corpus lines marked `ns`) only 'stays inside defined behaviour where the model says so' is compared",
+    "the Lean theorems hold for layouts in which no comment follows a value directly (Layout.spaced: every '%' behind "
+    "a value is preceded by white space); comments directly behind a value ('true%c') are part of the specification's "
+    "layouts, of the generator and of the reference reader, and are covered by correspondence + oracle only (C10's "
+    "per-token lemmas are stated for a separator that starts with white space)",
     "proved (Lean, no bound on the number of values, nesting depth, gaps or characters): checker_scanner_agree, "
     "scan_denotes and whitespace_comment_invariance for sentences whose values are built from: scalars in the "
     "spellings 'i' integers in decimal (with and without the suffix i) and hexadecimal (0x2a, -0x2a, 0x2A, two's "
@@ -51,15 +70,25 @@ ASSUMPTIONS = [
     "depth, with any white space between the elements; nxA (1 <= n <= 2^31-1) of a scalar or an array — under "
     "EVERY layout of white space, line breaks and '%' comment lines in front of, between and behind the values; "
     "print_scan_fixpoint for sentences of scalars only, assuming that the printer does not compress (no five "
-    "values of one type in a row)",
+    "values of one type in a row); in addition (range_first_partial): a sentence that STARTS with a range b ... c of two "
+    "different decimal 'i' integers (at least one white-space character in front of the dots, |c-b|+1 < 2^31), followed by "
+    "any proved values: it denotes |c-b|+1 values from b in steps of sgn(c-b), and checker and scanner agree on exactly "
+    "these cells",
     "NOT proved, covered by exact model/implementation correspondence and the oracle on the implementation only: octal "
     "integers, hexadecimal integers with a suffix or of type 'h', floats and doubles in every notation (point, exponent, suffix, hex, exact value in "
-    "parentheses), upper-case colours, other spacings inside MIDI, 'a b ... c' ranges of every type (integer and "
-    "float) at top level and in arrays, arrays with an open end; print_scan_fixpoint for arrays, nxA and compressed runs",
+    "parentheses), upper-case colours, other spacings inside MIDI, ranges with a left neighbour 'a b ... c', ranges that "
+    "are not the first value, ranges inside arrays, ranges of c/h/f/d or in other spellings, arrays with an open end, "
+    "comments directly behind a value; print_scan_fixpoint for arrays, nxA and compressed runs",
     "known finding C11-K1: an unsuffixed integer literal with a leading zero is read as decimal although the manual "
     "promises C99 (octal) reading and the suffixed forms are read as octal; the model mirrors it, Lean proves the "
     "counterexample, the run attributes an input to it only when the trigger holds, implementation = model, and every "
     "clause holds under the decimal reading",
+    "known finding C11-K2: a numeric literal directly followed by '%' (42%c, 1.5%c, 2x1%c, 1 ... 5%c) is rejected by the "
+    "checker although every other kind of value may be followed by a comment directly (upstream test 'comment right "
+    "after true'); scanf_fmtstr does not end the numeric word at '%'; the model mirrors it (C10's Pretty/Lex.lean "
+    "numWordLen), Lean proves the counterexample, an input is attributed only when the trigger holds, implementation = "
+    "model and the text is rejected as a whole; the repair is proposed as fixes/C11-08-numeric-word-ends-at-comment.patch "
+    "(not applied: it needs the same one-line change in C10's model)",
     "float ranges: the oracle follows the manual (an n with |b+nd-c| <= 0.001; the step is one IEEE subtraction); texts "
     "whose n or tolerance test is too close to call for a reference with exact arithmetic, and ranges whose left "
     "neighbour is the computed end of a float range (not defined by the manual), are not generated",
@@ -84,12 +113,17 @@ LEVEL_TEXT = ("Lean theorems over an executable model of checker, scanner and pr
               "nested to any depth, and nxA of a scalar or array, and for EVERY layout of white space, line breaks and "
               "comment lines: the checker's count equals the number of cells the scanner writes, the whole text is consumed, "
               "the cells are the denotation, and two layouts scan to the same cells (induction over the token list and the "
-              "nesting, no size bound); for sentences of scalars print-then-scan is the identity on the scanned cells. "
-              "The remaining constructs (octal and suffixed hex integers, floats, ranges, open-ended arrays) are checked by exact "
+              "nesting, no size bound); for sentences of scalars print-then-scan is the identity on the scanned cells; "
+              "of the ranges only the case 'b ... c of decimal i integers as the first value of the sentence' is proved. "
+              "'Every layout' means: every layout in which a comment behind a value is preceded by white space. "
+              "The remaining constructs (octal and suffixed hex integers, floats, ranges with a left neighbour / inside arrays / "
+              "of other types, open-ended arrays, comments directly behind a value) are checked by exact "
               "model/implementation correspondence on generated sentences and by an independent reference reader of the "
-              "manual evaluated on the implementation's output, not proved. One known finding (C11-K1, octal read as "
-              "decimal) with a proved counterexample")
-LEVEL_NOTE = "partial: scalars in the proved spellings, arrays and nxA under all layouts are proved; hex/octal/float spellings and ranges are correspondence + oracle only"
+              "manual evaluated on the implementation's output, not proved. Two known findings with proved counterexamples "
+              "(C11-K1 octal read as decimal; C11-K2 a numeric literal directly followed by '%' is rejected)")
+LEVEL_NOTE = ("partial: scalars in the proved spellings, arrays, nxA and a leading decimal integer range under all layouts without a "
+              "comment directly behind a value are proved; hex/octal/float spellings, all other ranges, open-ended arrays and "
+              "adjacent comments are correspondence + oracle only")
 
 # ------------------------------------------------------------------------------------
 # exact binary floating point on bit patterns (independent of the Lean model)
@@ -812,7 +846,7 @@ def values_equal(a, b, tol):
     return True
 
 
-RE_OUT = re.compile(r"^C (-?\d+)(?: W (\d+) R (\d+)/(\d+) V((?: \S+)*?)(?: P C2 (-?\d+)(?: W2 (\d+) R2 (\d+)/(\d+) V2((?: \S+)*))?)?)?$")
+RE_OUT = re.compile(r"^C (-?\d+)(?: W (\d+) R (\d+)/(\d+) V((?: \S+)*?)(?: P C2 (-?\d+)(?: W2 (\d+) R2 (ok|\d+/\d+) V2((?: \S+)*))?)?)?$")
 
 
 def parse_out(out):
@@ -827,7 +861,8 @@ def parse_out(out):
     if g[5] is not None:
         d.update(count2=int(g[5]))
     if g[6] is not None:
-        d.update(written2=int(g[6]), rd2=int(g[7]), len2=int(g[8]), cells2=g[9].split())
+        rd2, len2 = (0, 0) if g[7] == "ok" else (int(x) for x in g[7].split("/"))
+        d.update(written2=int(g[6]), rd2=rd2, len2=len2, cells2=g[8].split())
     return d
 
 
@@ -943,18 +978,15 @@ def known(op, impl_out, model_out, defs):
     t2 = "C11-K2" in ids and any(k2_trigger(t) for t in texts)
     if not (t1 or t2):
         return None
-    if oracle(op, impl_out) is None:
-        # the trigger holds but the implementation's answer satisfies every clause under the manual's reading (the
-        # defect has been repaired in this tree): only the defect-mirroring model differs, no alarm
+    # the readings to try: the one of the defect-mirroring model first (every finding whose trigger holds); then the
+    # ones in which a finding has been repaired in this tree (the implementation's answer then satisfies every clause
+    # under the manual's reading of that construct and only the model differs: no alarm)
+    for k1, k2 in ((t1, t2), (t1, False), (False, t2), (False, False)):
+        if oracle(op, impl_out, k1=k1, k2=k2) is not None:
+            continue
+        if (k1, k2) == (t1, t2) and model_out is not None and model_out != impl_out:
+            continue
         return "C11-K2" if t2 else "C11-K1"
-    if model_out is not None and model_out != impl_out:
-        return None
-    if t2 and not t1:
-        return "C11-K2" if oracle(op, impl_out, k2=True) is None else None
-    if t1 and not t2:
-        return "C11-K1" if oracle(op, impl_out, k1=True) is None else None
-    if oracle(op, impl_out, k1=True, k2=True) is None:
-        return "C11-K2" if oracle(op, impl_out, k1=True) is not None else "C11-K1"
     return None
 
 
